@@ -194,7 +194,9 @@ pub trait MdkStorageProvider {
                 r is Err ==> *final(w) == *old(w);
     fn get_group_exporter_secret(&self, group_id: &GroupId, epoch: u64, Tracked(w): Tracked<&mut World>) -> (r: Result<Option<GroupExporterSecret>, GroupError>)
         ensures *final(w) == *old(w),
-                r is Ok ==> r->Ok_0 == (if old(w).exporter_secrets.contains_key((*group_id, epoch)) { Some(old(w).exporter_secrets[(*group_id, epoch)]) } else { None::<GroupExporterSecret> });
+                r is Ok ==> r->Ok_0 == (if old(w).exporter_secrets.contains_key((*group_id, epoch)) { Some(old(w).exporter_secrets[(*group_id, epoch)]) } else { None::<GroupExporterSecret> }),
+                // primary key: the record stored under (group, epoch) carries that key
+                r is Ok && r->Ok_0 is Some ==> r->Ok_0->Some_0.mls_group_id == *group_id && r->Ok_0->Some_0.epoch == epoch;
     fn save_group_exporter_secret(&self, s: GroupExporterSecret, Tracked(w): Tracked<&mut World>) -> (r: Result<(), GroupError>)
         ensures r is Ok ==> *final(w) == (World { exporter_secrets: old(w).exporter_secrets.insert((s.mls_group_id, s.epoch), s), ..*old(w) }),
                 r is Err ==> *final(w) == *old(w);
@@ -395,6 +397,35 @@ pub struct MdkProvider<Storage: MdkStorageProvider> {
     pub crypto: RustCrypto,
     pub storage: Storage,
 }
+impl<Storage: MdkStorageProvider> MdkProvider<Storage> {
+    pub fn crypto(&self) -> (r: &RustCrypto) { &self.crypto }
+    pub fn storage(&self) -> (r: &Storage) ensures r == &self.storage { &self.storage }
+}
+impl MlsGroup {
+    // MLS exporter (assumed): records the export in the ghost world; the secret itself is uninterpreted
+    #[verifier::external_body]
+    pub fn export_secret(&self, crypto: &RustCrypto, label: &str, context: &[u8], key_length: usize, Tracked(w): Tracked<&mut World>) -> (r: Result<ExportedBytes, ExportSecretError>)
+        requires self.view().own_leaf_present, //@L[group_ops.exporter_secret.export_only_while_member|C03|callsite-requires]
+        ensures *final(w) == (World { exported_for: old(w).exported_for.push((self.view().group_id, self.view().epoch)), ..*old(w) }),
+                r is Ok ==> r->Ok_0.v@.len() == key_length,
+    { unimplemented!() }
+}
+// the Vec<u8> returned by export_secret, wrapped so that `.try_into::<[u8; 32]>()` has a specification
+// (vstd's blanket TryInto spec gives none for Vec<u8> -> [u8; N]); std semantics: Ok iff len == 32, same bytes
+pub struct ExportedBytes { pub v: Vec<u8> }
+pub struct ExportedBytesErr { }
+pub uninterp spec fn arr32(s: Seq<u8>) -> [u8; 32];
+impl TryFrom<ExportedBytes> for [u8; 32] {
+    type Error = ExportedBytesErr;
+    #[verifier::external_body]
+    fn try_from(b: ExportedBytes) -> (r: Result<[u8; 32], ExportedBytesErr>) { unimplemented!() }
+}
+impl vstd::std_specs::convert::TryFromSpecImpl<ExportedBytes> for [u8; 32] {
+    open spec fn obeys_try_from_spec() -> bool { true }
+    open spec fn try_from_spec(b: ExportedBytes) -> Result<[u8; 32], ExportedBytesErr> {
+        if b.v@.len() == 32 { Ok(arr32(b.v@)) } else { Err(ExportedBytesErr {}) }
+    }
+}
 
 // =====================================================================================
 // mdk-core: error type (extracted), MDK struct (declared here: field names as in lib.rs, field
@@ -424,6 +455,14 @@ pub use error::Error;
 impl From<BasicCredentialError> for Error {
     #[verifier::external_body]
     fn from(e: BasicCredentialError) -> (r: Error) ensures r == Error::BasicCredential(e) { unimplemented!() }
+}
+impl From<ExportSecretError> for Error {
+    #[verifier::external_body]
+    fn from(e: ExportSecretError) -> (r: Error) ensures r == Error::ExportSecret(e) { unimplemented!() }
+}
+impl vstd::std_specs::convert::FromSpecImpl<ExportSecretError> for Error {
+    open spec fn obeys_from_spec() -> bool { true }
+    open spec fn from_spec(e: ExportSecretError) -> Error { Error::ExportSecret(e) }
 }
 impl vstd::std_specs::convert::FromSpecImpl<BasicCredentialError> for Error {
     open spec fn obeys_from_spec() -> bool { true }
